@@ -253,7 +253,7 @@ def complete_replies(case):
     off = 0
     cut = case["cut"] if case["delta"] is not None else 0
     out = []
-    replies = [LW.final(0)] if case["script"] == "final" else [LW.PENDING, LW.final(0)]
+    replies = LW.script_replies(case["script"])
     k = 0
     for label, f in LW.reply_stream(case["tr"], case["script"]):
         off += len(f)
@@ -315,7 +315,10 @@ def spec_check(case, obs):
         v.append(("no-recovery", f"15 s after the loss (peer accepting again) request() with max_retry={case['mr']} gives {o2}"))
     if case["mr"] >= 1 and kind in ("eof", "reset") and o2 == "reply:" + LW.final(0).hex():
         v.append(("no-recovery", "the follow-up reply does not stem from the restarted peer"))
-    if case["mr"] >= 1 and kind in ("eof", "reset") and case["restart"] == 0 and not o1.startswith("reply:62f190"):
+    # ... and the request that meets the loss in its first attempt (no retry spent on a timeout before the event) recovers itself
+    first_attempt_sees_loss = tmo is None or tmo > (case["delta"] or 0)
+    if case["mr"] >= 1 and kind in ("eof", "reset") and case["restart"] == 0 and first_attempt_sees_loss \
+            and not o1.startswith("reply:62f190"):
         v.append(("no-recovery", f"peer accepts again at once, max_retry={case['mr']}, but the request itself gives {o1}"))
     return v
 
@@ -364,6 +367,21 @@ def gen_cases(ctx):
                                 mrs = [0, 1, 2, 3]
                             for mr in mrs:
                                 cases.append(dict(base, level="C", mr=mr))
+    # seeded: longer pending sequences, other event times / restart delays / timeouts / retry budgets, every offset eligible
+    rng = ctx.rng
+    for _ in range(ctx.pick(4000, 40000)):
+        tr = rng.choice(LW.TRANSPORTS)
+        script = rng.choice(["final", "pending", "pending2", "pending2", "pending3"])
+        kind = rng.choice(KINDS)
+        delta = rng.choice([0, 7, 33, 70, 123, 277, 451]) if (kind == "silence" or rng.random() < 0.9) else None
+        cut = 0 if delta is None else rng.choice(all_cuts(tr, script))
+        base = dict(tr=tr, script=script, cut=cut, kind=kind, delta=delta,
+                    restart=rng.choice([0, 137, 300, 999, 3000, 4321, 8000, 12000, 13000]),
+                    tmo=rng.choice([None, 300, 500, 1200, 5000]))
+        if rng.random() < 0.3:
+            cases.append(dict(base, level="T"))
+        else:
+            cases.append(dict(base, level="C", mr=rng.choice([0, 1, 1, 2, 3])))
     return cases
 
 
@@ -390,7 +408,7 @@ def compare(ctx, cases, impl, model):
                  f"delta:{c['delta']}", f"restart:{c['restart']}", f"tmo:{c['tmo']}", "pos:" + where(c).rstrip("0123456789"))
         ctx.kind("result:" + a.split(" ")[0].split(":")[0])
         if c["level"] == "C":
-            ctx.kind("followup:" + a.split(" ")[2].split(":")[0], f"max_retry:{c['mr']}")
+            ctx.kind("followup:" + (a.split(" ") + ["?", "?", "?"])[2].split(":")[0], f"max_retry:{c['mr']}")
         ctx.nontrivial(case_key(c))
         ctx.traces_validated += 1
         for clause, text in spec_check(c, a):
@@ -457,10 +475,7 @@ def run(ctx):
         "with MissingResponse in bounded time; no reconnect is attempted (model and implementation agree)")
 
 
-def replay(ctx, case):
-    setup_repo_import()
-    c = case.get("case", case)
-    c = c.get("case", c)
+def _replay_one(ctx, c):
     a = run_impl(c)
     b = ctx.lean([model_line(c)])[0]
     print("case  :", json.dumps(c, sort_keys=True))
@@ -471,6 +486,22 @@ def replay(ctx, case):
     for clause, text in v:
         print(f"property clause violated by the implementation: {clause}: {text}")
     return 1 if (v or a != b) else 0
+
+
+def replay(ctx, case):
+    setup_repo_import()
+    if "correspondence_disagreements" in case or "no_longer_checks" in case:
+        for b in case.get("no_longer_checks", []):
+            print("no longer checks:", b.get("what"))
+            print("   ", str(b.get("detail"))[-600:].replace("\n", "\n    "))
+        rc = 1 if case.get("no_longer_checks") else 0
+        for d in case.get("correspondence_disagreements", [])[:5]:
+            print("--", d.get("key"))
+            rc |= _replay_one(ctx, d["case"]["case"])
+        return rc
+    c = case.get("case", case)
+    c = c.get("case", c)
+    return _replay_one(ctx, c)
 
 
 MANIFEST = {
